@@ -197,6 +197,28 @@ CHECKS['C04'] = dict(
         'address a slot was bound to since its allocation); Coq kernel; translator; extraction; gcc.',
    technique='Coq proof (frame lemmas per handler, uniqueness of the routing target from the C18 pool invariant, allocation characterisation), differential correspondence, implementation-level monitor',
    design='4/C04')
+CHECKS['C15'] = dict(
+   text='Coq theorems over arbitrary server histories (every step refined into logged micro-steps): every answer carrying tunnel data for a session has at most '
+        'fragsize payload bytes for the fragsize currently in force for that session, including answers replayed from the answer cache (cache invariant: every '
+        'cached answer obeys the current size; an accepted N flushes the cache); fragsize changes only by an accepted N (>= 2) or the reset of a version request; '
+        'sizes below 2 are refused; fragments of a packet are numbered consecutively from 0 (wire number = number of accepted acks mod 16, an ack is accepted only '
+        'for a fragment that was sent), every retransmission carries the same bytes, the pieces tile the compressed packet and the last flag is exactly on the final piece. '
+        'Tied to iodined.c by per-event correspondence on server histories and a monitor that re-derives the size in force and re-tiles every packet byte-exactly.',
+   note='Trusts: answers the harness client cannot decode (e.g. 4 KiB TXT) are invisible to the monitor, which then stops tracking that packet; fragment sizes above 4094 are '
+        'clamped by the answer buffer; Coq kernel; translator; extraction; gcc.',
+   technique='Coq proof (step refinement into micro-steps, cache and numbering invariants by induction over histories), differential correspondence, implementation-level monitor',
+   design='4/C15')
+CHECKS['C16'] = dict(
+   text='Coq theorems over arbitrary server histories: the three memories are rings holding exactly the last 4 answers / 30 ping / 15 data fingerprints (sizes re-read '
+        'from the source); a query whose answer is still cached gets the same payload again and nothing else changes; a ping or data query whose fingerprint is still '
+        'remembered (case-insensitive for data, any DNS id, any source address) is answered with the one-byte marker and the state is unchanged; a duplicate of a pending '
+        'query is only remembered as such; so re-delivery never appends upstream payload twice and never advances or rewinds the downstream stream, in any order and '
+        'any number of times within the stated windows. Tied to iodined.c by per-event correspondence and a monitor with exact ring-save accounting.',
+   note='Trusts: the ping theorem assumes the fingerprint saved (first label) equals the one compared on arrival, proved for one-label pings, the only shape the client builds; '
+        'a ping whose data is split over two labels is not remembered (observed on the real code, corpus/C16/dotted-ping-not-remembered.cases; outside the quantifier: relays '
+        'do not re-label); sessions with an undecodable answer are skipped by the monitor until the next version request; Coq kernel; translator; extraction; gcc.',
+   technique='Coq proof (ring refinement to "last n saves", state-unchanged theorems for every suppressed/replayed case, trace induction), differential correspondence, implementation-level monitor',
+   design='4/C16')
 NOT_YET = {}
 
 def main():
